@@ -9,6 +9,10 @@ VERIF = os.path.dirname(os.path.dirname(os.path.abspath(__file__)))
 TECH = 'contract-based deductive verification (Verus/Z3) of function text extracted mechanically from /repo on every run'
 
 CLAIMED = {
+    'C02': dict(
+        text='Deductive proof of frame conditions over the real text of MemoryLoc::{with_offset,into_value,write_val,write_all,memset}, UnwrapOrAlloca::unwrap_or_alloca and the variant->enum arm of cast_into_memory: every store these functions emit lies inside the destination object [loc, loc+size(ty)) (and a freshly allocated slot is exactly size(ty) bytes), for all types, offsets and loop iterations.',
+        note='Partial: cast_into_memory as a whole, cast_struct_to_struct, cast_array_to_array and the ABI copy loops are not under contract -- only the store-emitting callees they use. Trusted: Cranelift store footprints (shims/verus/clif.rs), layout contracts (proved in unit layout), disjointness of distinct slots/objects, operands carry their type\'s width. "A copy is made on assignment" is only covered as "the copy writes exactly the destination".',
+        ref='DESIGN.md 5 (C02)'),
     'C08': dict(
         text='Deductive proof over the real text of compile_num_binary, cast_num, cast_ty_to_cranelift, NumberType::bit_width and the finalize_int closure: for every numeric type pair and every operand bit pattern the emitted instruction sequence denotes the two\'s-complement result the statement prescribes.',
         note='Trusted: Cranelift instruction semantics as written in shims/verus/clif.rs; FINAL_TYS table read; float arithmetic uninterpreted; operands are assumed to carry the operand type; i128<->float only for values that fit 64 bits. Not covered: which type the checker picks for an operation, comptime evaluation path.',
@@ -50,7 +54,6 @@ NOT_APPLICABLE = {
 # properties that are planned but whose unit is not built yet are listed as not applicable
 # until the check exists (a manifest entry must never point at a check that cannot run)
 PENDING = {
-    'C02': 'unit not built yet (frame contracts over MemoryLoc / cast_into_memory)',
     'C10': 'unit not built yet (index / #unwrap guards)',
     'C13': 'unit not built yet (nominal arms of can_fit_into / max)',
     'C18': 'unit not built yet (type-id packing)',
